@@ -19,6 +19,7 @@ require (
 	github.com/ethereum/go-ethereum v1.10.26
 	github.com/stretchr/testify v1.9.0
 	github.com/tidwall/gjson v1.14.4
+	google.golang.org/grpc v1.64.1
 	google.golang.org/protobuf v1.34.2
 	mods.irisnet.org/api v0.0.0-20241121030837-903540d1123f
 	mods.irisnet.org/e2e v0.0.0
@@ -217,7 +218,6 @@ require (
 	google.golang.org/genproto v0.0.0-20240227224415-6ceb2ff114de // indirect
 	google.golang.org/genproto/googleapis/api v0.0.0-20240318140521-94a12d6c2237 // indirect
 	google.golang.org/genproto/googleapis/rpc v0.0.0-20240709173604-40e1e62336c5 // indirect
-	google.golang.org/grpc v1.64.1 // indirect
 	gopkg.in/ini.v1 v1.67.0 // indirect
 	gopkg.in/natefinch/npipe.v2 v2.0.0-20160621034901-c1b8fa8bdcce // indirect
 	gopkg.in/yaml.v2 v2.4.0 // indirect
